@@ -79,6 +79,15 @@ pub fn prefixes(prop: &str) -> Vec<Vec<Step>> {
                 Step::Collect { arena: 0, api: Api::FinishMarking },
                 Step::Mutate { arena: 0, via_root: false, ops: vec![MutOp::PokeLeaf { target: 0 }, MutOp::BarrierOnly { variant: 1, parent: 0, child: 0 }, MutOp::BarrierOnly { variant: 4, parent: 0, child: 0 }], panic_at: None },
             ]);
+            // barriers on a traced leaf with a fresh (unmarked) child, nothing else traced in this cycle
+            for variant in [0u8, 4] {
+                v.push(vec![
+                    new_arena(0, vec![alloc(Kind::L, 0), MutOp::RootSet { slot: 0, child: Some(0) }]),
+                    Step::Collect { arena: 0, api: Api::FinishMarking },
+                    Step::Mutate { arena: 0, via_root: false, ops: vec![alloc(Kind::D, 0), MutOp::BarrierOnly { variant, parent: 0, child: 255 }, MutOp::BarrierOnly { variant, parent: 0, child: 255 }], panic_at: None },
+                    Step::Collect { arena: 0, api: Api::MarkDebt },
+                ]);
+            }
         }
         "C07" => {
             // finalize through mark_debt with zero debt right after a barrier in the Marked phase
